@@ -674,6 +674,7 @@ CORE_CFGS = {
     # name: (modules, env)
     "life": (["A", "B"], {"VP_HOOKS": "A:esx,B:x", "VP_CAP": "2"}),
     "ctx": (["A", "B"], {"VP_HOOKS": "A:x,B:e", "VP_CAP": "2"}),
+    "ctx3c": (["A", "B", "C"], {"VP_HOOKS": "B:x", "VP_CAP": "2", "VP_NAMES": "m0,m296,m330"}),
     "ctxc": (["A", "B"], {"VP_HOOKS": "A:x,B:e", "VP_CAP": "2", "VP_NAMES": "db,fs"}),
     "lifec": (["A", "B"], {"VP_HOOKS": "A:esx,B:x", "VP_CAP": "2", "VP_NAMES": "db,fs"}),
     "ctxp": (["A", "B"], {"VP_HOOKS": "A:x,B:e", "VP_CAP": "2", "VP_CTXPERSIST": "1"}),
@@ -766,13 +767,13 @@ def core_check(prop, tier, seed, quick_cfgs, thorough_cfgs, rule, Dq=5, Dt=7, bu
 
 @check("C01")
 def c01(prop, tier, seed):
-    return core_check(prop, tier, seed, ["life", "lifec", "ps2q"], ["life", "lifec", "ps2q", "ctx", "perm", "pub2"],
+    return core_check(prop, tier, seed, ["life", "lifec", "ctx3c", "ps2q"], ["life", "lifec", "ctx3c", "ps2q", "ctx", "perm", "pub2"],
                       "Compared after every step: module states, registered count, running_modules, callback kind/module/order, return codes.", sim_cfgs=["mixb"])
 
 
 @check("C07")
 def c07(prop, tier, seed):
-    return core_check(prop, tier, seed, ["ctx", "ctxp", "ctxc"], ["ctx", "ctxp", "ctxc", "life", "lifec"],
+    return core_check(prop, tier, seed, ["ctx", "ctxp", "ctxc", "ctx3c"], ["ctx", "ctxp", "ctxc", "ctx3c", "life", "lifec"],
                       "Focus: context register/deregister/finalize/loop from top level and from callbacks, persistent and not.", sim_cfgs=["mixb"])
 
 
